@@ -108,6 +108,11 @@ def make_pool(r):
     P.add("Array[nd 0-d]", Array("length", nd0, "m"), nd0)
     P.add("Array[nd 2-d]", Array("length", nd2, "m"), nd2)
     P.add("FixedArray[nd 2-d]", FixedArray(2, "length", nd2f, "m"), nd2f)
+    # a caption given as the empty string is no caption
+    P.add("Scalar(empty caption)", Scalar(ObtainQuantity("m", "length", ""), 1.5))
+    P.add("FixedArray(empty caption)", FixedArray(3, ObtainQuantity("cm", "depth", ""), [1.0, 2.0, 4.0]))
+    P.add("Scalar(unknown, empty caption)", Scalar(GetUnknownQuantity(""), 1.5))
+    P.add("Scalar(m/s, caption)", Scalar(ObtainQuantity(OrderedDict([("length", ["m", 1]), ("time", ["s", -1])]), None, "a caption"), 2.0))
     P.add("FractionValue", FractionValue(1, (1, 2)))
     P.add("Fraction", Fraction(3, 4))
     return P
